@@ -261,3 +261,12 @@ claim("C48", ("TLA+ specification of what every allocator result must satisfy (A
       "jitter / LinuxEnvironment and validated by TLC.",
       "TLC; x86-32 environments only; frees and MAP_FIXED over an existing mapping are not exercised; Windows and Linux allocators are "
       "not mixed in one process", "DESIGN.md 5/C48", "Alloc")
+
+claim("C36", IRJ,
+      "Random structured x86-32 functions (diamonds, nested ifs, jump-only blocks, counted loops, stack slots and absolute cells with "
+      "mixed access widths, push/pop) are assembled, disassembled and lifted; IRCFGSimplifierCommon and IRCFGSimplifierSSA are "
+      "applied and TLC runs original and simplified graph on IRMachine.tla from several initial states (RunGraph with a step "
+      "budget): the ordered byte-write log, the exit (IRDst value) and EAX / ESP - read through shadow variables that follow every "
+      "variable standing for them after SSA renaming - must coincide.",
+      "TLC; functions without calls; x86-32; two recorded known findings of the SSA pipeline (loop-carried assignments; dropped "
+      "redundant stores)", "DESIGN.md 5/C36", "IRJudge")
